@@ -7,7 +7,7 @@ import pandas
 
 from dsim import boot
 from dsim import ctx as C
-from dsim.peers import InjectedFault
+from dsim.peers import InjectedCancel, InjectedFault
 
 
 def sut(c, name, fn, *args, **kwargs):
@@ -18,7 +18,7 @@ def sut(c, name, fn, *args, **kwargs):
         return True, fn(*args, **kwargs)
     except (C.StepCapExceeded, C.HarnessError):
         raise
-    except Exception as e:  # noqa: BLE001
+    except (Exception, InjectedCancel) as e:  # noqa: BLE001
         c.log.ev("op-raised", name, type(e).__name__)
         return False, e
 
